@@ -2948,50 +2948,52 @@ func init() {
 // ---- a new heap collection's accounts add up (C12.17) ----
 func init() {
 	registry["C12"].Meta.Rules["C12.17"] = "a new collection's accounts add up: where a globalHeapCollectionBuilder is built, usedSpace + freeSpace = size as linear forms over the function's values (freeSpace = collectionSize without the 16 header bytes taken off admits an object that ends in the last 16 bytes of the collection: it is written over whatever was allocated behind the collection)"
-	registry["C12"].Rules = append(registry["C12"].Rules, func(c *Ctx, r *Result) {
-		n := 0
-		for _, fn := range c.LibFuncs() {
-			if shortPkg(fnPkgPath(fn)) != "hdf5" {
+	registry["C12"].Rules = append(registry["C12"].Rules, func(c *Ctx, r *Result) { c12accounts(c, r, "C12.17") })
+}
+
+func c12accounts(c *Ctx, r *Result, id string) {
+	n := 0
+	for _, fn := range c.LibFuncs() {
+		if shortPkg(fnPkgPath(fn)) != "hdf5" {
+			continue
+		}
+		vals := map[ssa.Value]map[string]ssa.Value{}
+		var first = map[ssa.Value]ssa.Instruction{}
+		instrs(fn, func(in ssa.Instruction) {
+			st, ok := in.(*ssa.Store)
+			if !ok {
+				return
+			}
+			fa, ok := st.Addr.(*ssa.FieldAddr)
+			if !ok {
+				return
+			}
+			f, base := fieldOfAddr(fa)
+			if f == nil || !strings.HasPrefix(fieldKey(base.Type(), f), "hdf5.globalHeapCollectionBuilder.") {
+				return
+			}
+			if _, isAlloc := base.(*ssa.Alloc); !isAlloc {
+				return // an update of an existing builder, not its construction
+			}
+			if vals[base] == nil {
+				vals[base] = map[string]ssa.Value{}
+				first[base] = in
+			}
+			vals[base][f.Name()] = st.Val
+		})
+		fb := c.FB(fn)
+		for base, m := range vals {
+			if m["size"] == nil || m["usedSpace"] == nil || m["freeSpace"] == nil {
 				continue
 			}
-			vals := map[ssa.Value]map[string]ssa.Value{}
-			var first = map[ssa.Value]ssa.Instruction{}
-			instrs(fn, func(in ssa.Instruction) {
-				st, ok := in.(*ssa.Store)
-				if !ok {
-					return
-				}
-				fa, ok := st.Addr.(*ssa.FieldAddr)
-				if !ok {
-					return
-				}
-				f, base := fieldOfAddr(fa)
-				if f == nil || !strings.HasPrefix(fieldKey(base.Type(), f), "hdf5.globalHeapCollectionBuilder.") {
-					return
-				}
-				if _, isAlloc := base.(*ssa.Alloc); !isAlloc {
-					return // an update of an existing builder, not its construction
-				}
-				if vals[base] == nil {
-					vals[base] = map[string]ssa.Value{}
-					first[base] = in
-				}
-				vals[base][f.Name()] = st.Val
-			})
-			fb := c.FB(fn)
-			for base, m := range vals {
-				if m["size"] == nil || m["usedSpace"] == nil || m["freeSpace"] == nil {
-					continue
-				}
-				n++
-				sum := fb.lin(m["usedSpace"]).add(fb.lin(m["freeSpace"]), 1)
-				r.Check(sum.equal(fb.lin(m["size"])), "C12.17", c.Name(fn)+"#used-plus-free-is-size", c.InstrPos(first[base]), "usedSpace + freeSpace = "+fb.linString(sum)+"; size = "+fb.linString(fb.lin(m["size"])))
-			}
+			n++
+			sum := fb.lin(m["usedSpace"]).add(fb.lin(m["freeSpace"]), 1)
+			r.Check(sum.equal(fb.lin(m["size"])), id, c.Name(fn)+"#used-plus-free-is-size", c.InstrPos(first[base]), "usedSpace + freeSpace = "+fb.linString(sum)+"; size = "+fb.linString(fb.lin(m["size"])))
 		}
-		if n < 1 {
-			r.Shortfall(c, "C12.17", "C12.17: no construction of a globalHeapCollectionBuilder with size, usedSpace and freeSpace found")
-		}
-	})
+	}
+	if n < 1 {
+		r.Shortfall(c, id, "C12.17: no construction of a globalHeapCollectionBuilder with size, usedSpace and freeSpace found")
+	}
 }
 
 // introducedAfterReview: fn (or the function it is nested in) is not in the inventory of the reviewed tree.
@@ -3410,23 +3412,7 @@ func init() {
 
 // ---- module-wide rules of round 8, shared under every property whose files they read ----
 func init() {
-	nextID := func(prop string) string {
-		max := 0
-		for id := range registry[prop].Meta.Rules {
-			var n int
-			if _, err := fmt.Sscanf(strings.TrimPrefix(id, prop+"."), "%d", &n); err == nil && n > max {
-				max = n
-			}
-		}
-		return fmt.Sprintf("%s.%d", prop, max+1)
-	}
-	share := func(props []string, txt, from string, run func(c *Ctx, r *Result, id string)) {
-		for _, p := range props {
-			id := nextID(p)
-			registry[p].Meta.Rules[id] = txt + " (shared with " + from + ": the rule reads the whole module)"
-			registry[p].Rules = append(registry[p].Rules, func(c *Ctx, r *Result) { run(c, r, id) })
-		}
-	}
+	share := shareRule
 	share([]string{"C01", "C02", "C03", "C05", "C11", "C15"}, registry["C04"].Meta.Rules["C04.17"], "C04.17", func(c *Ctx, r *Result, id string) { exactRejectionRule(c, r, id, 20) })
 	share([]string{"C01", "C03", "C05", "C06", "C15"}, registry["C14"].Meta.Rules["C14.19"], "C14.19", func(c *Ctx, r *Result, id string) { widthArmRule(c, r, id, 3) })
 	share([]string{"C04", "C10", "C16"}, registry["C03"].Meta.Rules["C03.21"], "C03.21", func(c *Ctx, r *Result, id string) { typedMessageWriteRule(c, r, id, 2) })
@@ -3444,4 +3430,46 @@ func init() {
 	share([]string{"C01", "C05", "C06"}, registry["C11"].Meta.Rules["C11.19"], "C11.19", func(c *Ctx, r *Result, id string) { byteOrderParamRule(c, r, id, 5) })
 	share([]string{"C02", "C06"}, registry["C11"].Meta.Rules["C11.20"], "C11.20", func(c *Ctx, r *Result, id string) { declaredExtentRule(c, r, id, 2) })
 	share([]string{"C02", "C03", "C10", "C15"}, registry["C14"].Meta.Rules["C14.16"], "C14.16", func(c *Ctx, r *Result, id string) { lostFieldStoreRule(c, r, id) })
+}
+
+// nextRuleID: the id after the highest one registered for the property so far.
+func nextRuleID(prop string) string {
+	max := 0
+	for id := range registry[prop].Meta.Rules {
+		var n int
+		if _, err := fmt.Sscanf(strings.TrimPrefix(id, prop+"."), "%d", &n); err == nil && n > max {
+			max = n
+		}
+	}
+	return fmt.Sprintf("%s.%d", prop, max+1)
+}
+
+// shareRule registers a rule that reads the whole module under further properties, with the next free id of each.
+func shareRule(props []string, txt, from string, run func(c *Ctx, r *Result, id string)) {
+	for _, p := range props {
+		id := nextRuleID(p)
+		registry[p].Meta.Rules[id] = txt + " (shared with " + from + ": the rule reads the whole module)"
+		registry[p].Rules = append(registry[p].Rules, func(c *Ctx, r *Result) { run(c, r, id) })
+	}
+}
+
+// ---- round 9 shares ----
+func init() {
+	shareRule([]string{"C01"}, registry["C09"].Meta.Rules["C09.5"], "C09.5", func(c *Ctx, r *Result, id string) { aliasRule(c, r, "C09", c09chunkDest, "C09.5", id) })
+	shareRule([]string{"C05"}, registry["C15"].Meta.Rules["C15.2"], "C15.2", func(c *Ctx, r *Result, id string) { aliasRule(c, r, "C15", ruleC15, "C15.2", id) })
+	shareRule([]string{"C05"}, registry["C12"].Meta.Rules["C12.17"], "C12.17", func(c *Ctx, r *Result, id string) { c12accounts(c, r, id) })
+	shareRule([]string{"C05"}, registry["C03"].Meta.Rules["C03.20"], "C03.20", func(c *Ctx, r *Result, id string) { symbolNodeCapacityRule(c, r, id) })
+	shareRule([]string{"C10"}, registry["C16"].Meta.Rules["C16.11"], "C16.11", func(c *Ctx, r *Result, id string) { sentinelIndexRule(c, r, id, 2) })
+	shareRule([]string{"C13", "C01"}, registry["C09"].Meta.Rules["C09.8"], "C09.8", func(c *Ctx, r *Result, id string) { aliasRule(c, r, "C09", c09strides, "C09.8", id) })
+	shareRule([]string{"C16"}, registry["C03"].Meta.Rules["C03.1"], "C03.1", func(c *Ctx, r *Result, id string) { aliasRule(c, r, "C03", ruleC03, "C03.1", id) })
+	shareRule([]string{"C16"}, registry["C13"].Meta.Rules["C13.14"], "C13.14", func(c *Ctx, r *Result, id string) { dimensionIndexRule(c, r, id, 10) })
+	scope := func(n string) bool {
+		for _, p := range []string{"core.ObjectHeaderWriter.", "core.WriteObjectHeader", "core.RewriteObjectHeader", "core.AddMessageToObjectHeader", "core.ModifyCompactAttribute", "hdf5.writeCompactAttribute", "hdf5.upsertAttributeMessage"} {
+			if strings.HasPrefix(n, p) {
+				return true
+			}
+		}
+		return false
+	}
+	shareRule([]string{"C16"}, registry["C10"].Meta.Rules["C10.17"], "C10.17", func(c *Ctx, r *Result, id string) { narrowingRuleScoped(c, r, id, scope) })
 }
